@@ -59,12 +59,11 @@ def run(ctx):
     ctx.rule("C03.4", "stack: no call cycle is reachable from Message::from_octets (so the stack depth is a constant of the program, not of the message) and no reachable function holds a large array local")
 
     fns = [f for f in P.reach_set(prog, [FROM_OCTETS]) if not f.derived]
-    ctx.floor("C03.1", "functions reachable from Message::from_octets", len(fns), 24)
+    ctx.floor("C03.1", "functions reachable from Message::from_octets", len(fns), 15)
     d = P.Discharger(ctx, "C03.1", prog, justify(prog))
     counts = d.run(fns)
-    ctx.floor("C03.1", "bounds assertions examined", counts.get("assert:BoundsCheck", 0), 7)
-    ctx.floor("C03.1", "slice range index examined", counts.get("call:index", 0), 1)
-    ctx.floor("C03.1", "unwraps examined", counts.get("call:unwrap", 0), 2)
+    # (how many sites there are depends on idiom - `octets[i]` vs `octets.get(i)?` - so only the total is guarded against vacuity)
+    ctx.floor("C03.1", "panic-capable sites examined in the decoder", sum(counts.values()), 5)
     ctx.note("site kinds examined: %s" % counts)
     # no user-written unsafe anywhere (the bounds argument relies on safe indexing)
     ctx.check(not prog.unsafe, "C03.1", "no-unsafe", "no user-written unsafe in the workspace", "user-written unsafe present: %s" % prog.unsafe)
@@ -255,7 +254,7 @@ def run(ctx):
         ok = A.peel(idv) == ("param", 1) and f.local_ty(1) == "u16" or (ps or "").endswith("header.id") or (ps or "").endswith(".id") or \
             (f.key == hd.key and A.peel(codec.untry(idv))[0] == "call" and A.peel(codec.untry(idv))[1] == CB + "next_u16") or (A.peel(idv)[0] == "upvar" and A.peel(idv)[1] == "id")
         ctx.check(ok, "C03.5", "error-id:%s@%s#%d" % (st["rv"]["variant"], A.short(f.key), n_err), "error payload is the message ID", "error %s carries %s" % (st["rv"]["variant"], A.show(idv)[:80]), f.loc(b, i))
-    ctx.floor("C03.5", "ID-carrying error constructions", n_err, 20)
+    ctx.floor("C03.5", "ID-carrying error constructions", n_err, 10)
     # callers pass header.id / id down
     for callee in (WIRE_DN, DES + "<impl dns_types::protocol::types::Question>::deserialise", DES + "<impl dns_types::protocol::types::ResourceRecord>::deserialise",
                    DES + "<impl dns_types::protocol::types::RecordType>::deserialise", DES + "<impl dns_types::protocol::types::RecordClass>::deserialise",
